@@ -67,7 +67,7 @@ func (p *PatternSearcher) VerifIndex() int { return p.index }
 func (p *AnagramSearcher) VerifState() (letters []byte, counts []int, blanks int, targetLength int, path []byte) {
 	for _, c := range p.counts {
 		letters = append(letters, c.letter)
-		counts = append(counts, c.count)
+		counts = append(counts, int(c.count))
 	}
 	return letters, counts, p.blanks, p.targetLength, append([]byte{}, p.currPath...)
 }
